@@ -638,7 +638,7 @@ def stepRest (d : DW) (line : String) : DW × String :=
     match ints? rest with
     | some (j1 :: j2 :: m1 :: m2 :: d1 :: d2 :: al :: rc :: k1 :: k2 :: h :: n :: draws) =>
       let p : GenParams := ⟨(j1.toNat, j2.toNat), (m1.toNat, m2.toNat), (d1, d2), al != 0, rc != 0, (k1.toNat, k2.toNat)⟩
-      let rec helper : Nat → List Nat → List String → Except GenErr (List String × List Nat)
+      let rec helper : Nat → List Nat → List String → Except GenFail (List String × List Nat)
         | 0, ds, acc => .ok (acc.reverse, ds)
         | k + 1, ds, acc =>
           match genOp p (List.range m2.toNat) ds with
